@@ -717,7 +717,7 @@ func (s *c20Schema) checkPKCase(atoms []c20Atom, rows []c20Row, layout []int, c 
 	after := strings.ReplaceAll(pkRec.String(), "\n", " ")
 	kind, why := c20Causes[2], "wrong only after an earlier scan of the same condition rewrote the cached index record"
 	if warm == 0 {
-		kind, why = (&c20Classifier{pkRec: pkRec, mark: mark, kc: kc, set: set, fs: fs, snap: snap}).kind(need)
+		kind, why = (&c20Classifier{pkRec: pkRec, mark: mark, kc: kc, set: set, fs: fs, snap: snap}).kind(need, s.nullBoolKey(rows))
 	}
 	c20RestoreRec(pkRec, snap)
 	return true, kind,
@@ -841,6 +841,7 @@ type c20PKRun struct {
 	nAtoms []int
 	kcs    map[[2]int]KeyCondition // (cond, time) -> key condition; nil = rejected by NewKeyCondition
 	vio    map[string]int
+	panicSeen map[string]bool
 	st     c20PKStats
 	wi     *int // global work-item counter (sharding)
 }
@@ -907,17 +908,21 @@ func (r *c20PKRun) kc(ci, ti int, tr c20TimeRange) KeyCondition {
 	return out
 }
 
+// snapshot of everything a scan can change in the index record (Range.turnOpenRangeIntoClosed ->
+// ColVal.UpdateIntegerValue touches Val, Bitmap and NilCount); entry 3i+2 holds NilCount
 func c20SnapRec(rec *record.Record) [][]byte {
 	var out [][]byte
 	for i := range rec.ColVals {
-		out = append(out, append([]byte(nil), rec.ColVals[i].Val...), append([]byte(nil), rec.ColVals[i].Bitmap...))
+		out = append(out, append([]byte(nil), rec.ColVals[i].Val...), append([]byte(nil), rec.ColVals[i].Bitmap...),
+			[]byte(strconv.Itoa(rec.ColVals[i].NilCount)))
 	}
 	return out
 }
 
 func c20RecChanged(rec *record.Record, snap [][]byte) bool {
 	for i := range rec.ColVals {
-		if string(rec.ColVals[i].Val) != string(snap[2*i]) || string(rec.ColVals[i].Bitmap) != string(snap[2*i+1]) {
+		if string(rec.ColVals[i].Val) != string(snap[3*i]) || string(rec.ColVals[i].Bitmap) != string(snap[3*i+1]) ||
+			strconv.Itoa(rec.ColVals[i].NilCount) != string(snap[3*i+2]) {
 			return true
 		}
 	}
@@ -926,8 +931,9 @@ func c20RecChanged(rec *record.Record, snap [][]byte) bool {
 
 func c20RestoreRec(rec *record.Record, snap [][]byte) {
 	for i := range rec.ColVals {
-		rec.ColVals[i].Val = append(rec.ColVals[i].Val[:0], snap[2*i]...)
-		rec.ColVals[i].Bitmap = append(rec.ColVals[i].Bitmap[:0], snap[2*i+1]...)
+		rec.ColVals[i].Val = append(rec.ColVals[i].Val[:0], snap[3*i]...)
+		rec.ColVals[i].Bitmap = append(rec.ColVals[i].Bitmap[:0], snap[3*i+1]...)
+		rec.ColVals[i].NilCount, _ = strconv.Atoi(string(snap[3*i+2]))
 	}
 }
 
@@ -960,6 +966,7 @@ func (r *c20PKRun) report(kind string, rows []c20Row, layout []int, ci int, tr c
 	c := r.conds[ci]
 	r.vio[kind]++
 	r.rep.Count("violations_"+kind, 1)
+	r.rep.Count("violations_"+kind+"_schema_"+r.s.Name, 1)
 	if r.vio[kind] > 12 {
 		r.rep.Violation(kind, "", "", nil) // counted; the kit keeps the first 8 per kind with detail
 		return
@@ -1068,6 +1075,15 @@ func (r *c20PKRun) group(recs [][]c20Row, members []int, layout, bounds []int, n
 					r.st.scanErr++
 					if strings.HasPrefix(et, "panic") {
 						r.rep.Count("pk_scan_panic", 1)
+						r.rep.Count("pk_scan_panic_schema_"+s.Name, 1)
+						if r.panicSeen == nil {
+							r.panicSeen = map[string]bool{}
+						}
+						if !r.panicSeen[et] && len(r.panicSeen) < 4 {
+							r.panicSeen[et] = true
+							cs := s.mkCase("pk", r.atoms, recs[members[0]], layout, c, tr, set, 0)
+							r.rep.Note("Scan panic (not a pruning decision, counted only): %s: %s", et, cs.key())
+						}
 					}
 					continue
 				}
@@ -1097,7 +1113,7 @@ func (r *c20PKRun) group(recs [][]c20Row, members []int, layout, bounds []int, n
 						if cls == nil {
 							cls = &c20Classifier{pkRec: pkRec, mark: mark, kc: kc, set: set, fs: fs, snap: snap}
 						}
-						kind, _ := cls.kind(need)
+						kind, _ := cls.kind(need, s.nullBoolKey(recs[m]))
 						r.report(kind, recs[m], layout, ci, tr, set, 0)
 					} else if mutated && need&^cov2 != 0 {
 						r.report(c20Causes[2], recs[m], layout, ci, tr, set, 1)
@@ -1174,6 +1190,10 @@ func TestVerifC20(t *testing.T) {
 		if only := os.Getenv("C20_ONLY"); only != "" && only != p.Schema.Name {
 			continue
 		}
+		if err := p.Schema.checkSorterModel(); err != nil {
+			t.Fatalf("schema %s: %v", p.Schema.Name, err)
+		}
+		rep.Count("sorter_model_checked_schemas", 1)
 		r := c20NewPKRun(&p, rep, &wi)
 		t0 := time.Now()
 		r.run()
@@ -1417,7 +1437,7 @@ var c20Causes = []string{
 
 // kind: the smallest set of repairs (reference switches) under which the fragments in need are returned; the
 // violation is filed under the first cause of that set, the whole set goes into the detail text.
-func (c *c20Classifier) kind(need uint16) (string, string) {
+func (c *c20Classifier) kind(need uint16, nullBool bool) (string, string) {
 	pass := func(i int) bool { cov, ok := c.variant(i); return ok && need&^cov == 0 }
 	if pass(0) {
 		return "pk_fragment_with_match_pruned", "reference recursion does not reproduce the pruning" // unknown cause
@@ -1433,7 +1453,27 @@ func (c *c20Classifier) kind(need uint16) (string, string) {
 			return names[0], "repairs needed to keep the fragment: " + strings.Join(names, " + ")
 		}
 	}
+	if nullBool {
+		// the writer's sorter pads a null boolean with false (record.BooleanSlice.PadBoolSlice): null and false keys
+		// tie and may interleave, so no placement of null marks (+inf or -inf) makes the marks monotone
+		return "pk_null_boolean_key_sorted_with_false", "record has a null boolean key; no combination of the known repairs keeps the fragment"
+	}
 	return "pk_fragment_with_match_pruned", "no combination of the known repairs keeps the fragment"
+}
+
+// nullBoolKey: some boolean key column of the record holds a null
+func (s *c20Schema) nullBoolKey(rows []c20Row) bool {
+	for c := 0; c < s.NKey; c++ {
+		if s.Cols[c].Typ != influx.Field_Type_Boolean {
+			continue
+		}
+		for _, r := range rows {
+			if r[c] < 0 {
+				return true
+			}
+		}
+	}
+	return false
 }
 
 // ---------------------------------------------------------------------------------------------
@@ -1904,7 +1944,7 @@ func (p *c20SkPlan) run(rep *kit.Report, env *c20SkEnv, wi *int) {
 	var tuples [][]int
 	kit.Odometer(radix, func(d []int) bool { tuples = append(tuples, append([]int(nil), d...)); return true })
 	vio := map[string]int{}
-	var evals, nontrivial, errs int64
+	var evals, nontrivial, errs, pruned int64
 	for n := 1; n <= p.Rows[0]; n++ {
 		var layouts [][]int
 		switch p.Layouts {
@@ -1972,6 +2012,9 @@ func (p *c20SkPlan) run(rep *kit.Report, env *c20SkEnv, wi *int) {
 						}
 						continue
 					}
+					if res.cov != uint16(1<<len(layout))-1 {
+						pruned++
+					}
 					if !res.bad {
 						// non-trivial iff some block was pruned and some row matches
 						if res.match != 0 && res.cov != uint16(1<<len(layout))-1 {
@@ -2004,6 +2047,8 @@ func (p *c20SkPlan) run(rep *kit.Report, env *c20SkEnv, wi *int) {
 	rep.Eval(evals)
 	rep.Count("nontrivial_cases", nontrivial)
 	rep.Count("sk_"+p.Index+"_cases", evals)
+	rep.Count("sk_"+p.Index+"_cases_with_a_pruned_block", pruned)
+	rep.Count("sk_"+p.Index+"_nontrivial_cases", nontrivial)
 	rep.Count("sk_"+p.Index+"_error_or_panic", errs)
 }
 
@@ -2057,4 +2102,100 @@ func c20SkPlans(thorough bool) []c20SkPlan {
 			Rows: mmRows, Layouts: "fixed", Atoms: fAtoms})
 	}
 	return ps
+}
+
+// ---------------------------------------------------------------------------------------------
+// self-check of the harness' order model against the writer's real sorter
+// ---------------------------------------------------------------------------------------------
+
+// checkSorterModel sorts every key tuple of the schema (handed over in descending model order) with the
+// column-store writer's sorter, record.SortHelper.SortForColumnStore, and verifies that the result is
+// non-decreasing under rowLE, i.e. that the records the harness enumerates are records the writer can produce
+// (in particular: null keys first).
+func (s *c20Schema) checkSorterModel() error {
+	if s.TC {
+		return nil // the clustered time column is produced by the sorter itself
+	}
+	tuples := s.tuples()
+	n := len(tuples)
+	var sc record.Schemas
+	var keyCols []int
+	var order []record.PrimaryKey
+	ti := -1
+	for c := 0; c < s.NKey; c++ {
+		order = append(order, record.PrimaryKey{Key: s.Cols[c].Name, Type: int32(s.Cols[c].Typ)})
+		if s.Cols[c].Name == record.TimeField {
+			ti = c
+			continue
+		}
+		keyCols = append(keyCols, c)
+		sc = append(sc, record.Field{Name: s.Cols[c].Name, Type: s.Cols[c].Typ})
+	}
+	sc = append(sc, record.Field{Name: record.TimeField, Type: influx.Field_Type_Int})
+	rec := record.NewRecord(sc, false)
+	for k := n - 1; k >= 0; k-- {
+		for j, c := range keyCols {
+			c20Append(rec.Column(j), &s.Cols[c], tuples[k][c])
+		}
+		if ti >= 0 {
+			v, _ := strconv.ParseInt(s.Cols[ti].Dom[tuples[k][ti]], 10, 64)
+			rec.Column(len(keyCols)).AppendInteger(v)
+		} else {
+			rec.Column(len(keyCols)).AppendInteger(int64(n - k))
+		}
+	}
+	h := record.NewSortHelper()
+	out := h.SortForColumnStore(rec, order, false, 0)
+	if out.RowNums() != n {
+		return fmt.Errorf("sorter returned %d rows, want %d", out.RowNums(), n)
+	}
+	code := func(col *c20Col, cv *record.ColVal, i int) (int8, error) {
+		if cv.IsNil(i) {
+			return -1, nil
+		}
+		var text string
+		switch col.Typ {
+		case influx.Field_Type_String:
+			text, _ = cv.StringValueSafe(i)
+		case influx.Field_Type_Int:
+			v, _ := cv.IntegerValue(i)
+			text = strconv.FormatInt(v, 10)
+		case influx.Field_Type_Float:
+			v, _ := cv.FloatValue(i)
+			text = strconv.FormatFloat(v, 'f', 1, 64)
+		case influx.Field_Type_Boolean:
+			v, _ := cv.BooleanValue(i)
+			text = strconv.FormatBool(v)
+		}
+		for k, d := range col.Dom {
+			if d == text {
+				return int8(k), nil
+			}
+		}
+		return 0, fmt.Errorf("value %q of column %s not in the domain", text, col.Name)
+	}
+	rows := make([]c20Row, n)
+	for i := 0; i < n; i++ {
+		rows[i] = make(c20Row, s.NKey)
+		for j, c := range keyCols {
+			v, err := code(&s.Cols[c], out.Column(j), i)
+			if err != nil {
+				return err
+			}
+			rows[i][c] = v
+		}
+		if ti >= 0 {
+			v, err := code(&s.Cols[ti], out.Column(len(keyCols)), i)
+			if err != nil {
+				return err
+			}
+			rows[i][ti] = v
+		}
+	}
+	for i := 1; i < n; i++ {
+		if !s.rowLE(rows[i-1], rows[i]) {
+			return fmt.Errorf("writer's sorter order differs from the harness model at row %d: %v", i, s.rowsText(rows))
+		}
+	}
+	return nil
 }
